@@ -420,18 +420,29 @@ def r5(ctx):
         meth = [k for k in c.keywords if k.arg == 'method']
         ok = bool(meth) and isinstance(meth[0].value, ast.Constant) and meth[0].value.value == 1
         p = c.args[0]
-        # the path names the cell (a value derived from the record's `bi` and `MX` tags) and the mate label of the zip loop
+        # the path names the cell (the record's `bi` and `MX` tags, directly or through a local of the loop) and the mate label of the zip loop
         loops = enclosing_loops(f, c)
         lv = {n for l in loops for n in loop_targets(l.target)}
-        cellvars = set()
+        defs = {}
         for l in loops:
             for a in walk_no_nested(l):
                 if isinstance(a, ast.Assign) and len(a.targets) == 1 and isinstance(a.targets[0], ast.Name):
-                    consts = {x.value for x in ast.walk(a.value) if isinstance(x, ast.Constant)}
-                    if {'bi', 'MX'} <= consts and names_in(a.value) & lv:
-                        cellvars.add(a.targets[0].id)
-        used = names_in(p)
-        okp = isinstance(p, ast.JoinedStr) and src(p).rstrip("'\"").endswith('.gz') and bool(used & cellvars) and bool(used & lv)
+                    defs.setdefault(a.targets[0].id, []).append(a.value)
+        exprs = [p]
+        seen = set()
+        work = list(names_in(p))
+        while work:
+            nme = work.pop()
+            if nme in seen:
+                continue
+            seen.add(nme)
+            for v in defs.get(nme, []):
+                exprs.append(v)
+                work.extend(names_in(v))
+        consts = {x.value for e_ in exprs for x in ast.walk(e_) if isinstance(x, ast.Constant)}
+        used = {n for e_ in exprs for n in names_in(e_)}
+        tags_of_record = any(isinstance(x, ast.Attribute) and x.attr == 'tags' and isinstance(x.value, ast.Name) and x.value.id in lv for e_ in exprs for x in ast.walk(e_))
+        okp = isinstance(p, ast.JoinedStr) and src(p).rstrip("'\"").endswith('.gz') and {'bi', 'MX'} <= consts and tags_of_record and bool(names_in(p) & lv)
         ctx.emit('C19-R5', ok and okp, FQHANDLE, c, f'per-cell write: path {src(p)} method={src(meth[0].value) if meth else None}', key='sc-write-gzip')
     # bamSplitByTag and others: informational count of HandleLimiter users
     g = ctx.fn(FQHANDLE, 'FastqHandle.close')
